@@ -781,6 +781,17 @@ def check_helpers(case, ctx):
         ctx.close(got2, mean, 1e-12 * (1 + mean), "calc_mse_qoperations:no_std")
         ctx.raises(ValueError, lambda: da.calc_mse_qoperations(xs, [qs[0]] * len(xs), mode="object"),
                    "calc_mse_qoperations:rejects_unknown_mode")
+        # paired references (a different reference per estimate): squared distance of each pair, and zero for a list
+        # compared with itself
+        ys = qs[:-1]
+        pts2 = [float(np.sum((a - b) ** 2)) for a, b in zip(x_s, stacked[:-1])]
+        mean2 = float(np.mean(pts2))
+        std2 = float(math.sqrt(sum((t - mean2) ** 2 for t in pts2) / (len(pts2) - 1)))
+        got3 = da.calc_mse_qoperations(xs, ys)
+        ctx.close(got3[0], mean2, 1e-12 * (1 + mean2), "calc_mse_qoperations:paired:mean")
+        ctx.close(got3[1], std2, 1e-11 * (1 + mean2), "calc_mse_qoperations:paired:std_ddof1")
+        got4 = da.calc_mse_qoperations(xs, xs, with_std=False)
+        ctx.close(got4, 0.0, 1e-15, "calc_mse_qoperations:list_with_itself_is_zero")
         ctx.label(objs[0]["type"], f"flag:{flag}")
         ctx.nontrivial(len(xs) >= 3)
         return
